@@ -52,7 +52,8 @@ def mk_value(kind, i):
 def history(last, head, changes, kind):
     """-> get(level), expected change list"""
     cps = sorted(changes)
-    budget = [BUDGET_FACTOR * (head - last + 5)]
+    limit = BUDGET_FACTOR * (head - last + 5)
+    budget = [limit]
 
     def get(level):
         budget[0] -= 1
@@ -61,6 +62,10 @@ def history(last, head, changes, kind):
         if not (last <= level <= head):
             raise IndexError(f'get({level}) outside [{last}, {head}]')
         return mk_value(kind, sum(1 for c in cps if c <= level))
+
+    def reset():
+        budget[0] = limit
+    get.reset = reset
     return get, [(c, mk_value(kind, i + 1)) for i, c in enumerate(cps)]
 
 
@@ -76,6 +81,7 @@ def eval_case(case):
     fails = []
 
     def guard(name, thunk):
+        get.reset()                      # every call under contract gets its own read budget
         try:
             return True, thunk()
         except IndexError as x:
